@@ -267,6 +267,19 @@ func (c *Check) panicInventory(fs []*Func, r *reachInfo) {
 			case *ast.CallExpr:
 				if id, ok := x.Fun.(*ast.Ident); ok {
 					if b, ok := info.Uses[id].(*types.Builtin); ok && b.Name() == "panic" {
+						// only panics that lie on a feasible enumerated path count
+						feasible := false
+						for _, pa := range c.P.PathsOf(f) {
+							for _, ev := range pa.Events {
+								if ev.Kind == EvPanic && ev.Pos >= x.Pos()-1 && ev.Pos <= x.End() {
+									feasible = true
+								}
+							}
+						}
+						if !feasible {
+							c.ok("C20.3", unitConstruct(f, "panic-unreachable"), x.Pos(), "explicit panic on no feasible path (its guard is decided false by construction)")
+							return true
+						}
 						nPanic++
 						switch {
 						case r.fromEndBlock[f]:
